@@ -887,7 +887,7 @@ theorem vendorError_size (v : V) : SizeOK VendorError.lenM VendorError.marshalM 
   · revert h3; size_fill
   · exact absurd h3 (by simp)
 
-/-- SwitchFeatures: allocated from Len() (which also counts the DPID that is never written: the tail stays zero) -/
+/-- SwitchFeatures: header, DPID, fixed part and ports are written into a buffer allocated from Len() -/
 theorem switchFeatures_size (v : V) : SizeOK SwitchFeatures.lenM SwitchFeatures.marshalM v := by
   intro l v1 bs v2 h1 h2
   unfold SwitchFeatures.marshalM at h2
